@@ -35,8 +35,8 @@ out = ["## 15. Changes that keep the property true: no alarm\n",
        "heuristic the statement does not pin), with a written argument (`harmless/<id>/WHY.txt`). `SEEDED_KIND=harmless tools/seeded.py` "
        "runs the registered quick command against each in isolation; the expected outcome is exit 0 (`QUIET`). Changes touching the decoder "
        "or the shared wiring were also run against the checks of neighbouring properties.\n",
-       f"Result: {len(rows)} changes, {n_runs} check runs, {n_alarm} alarm(s). The one alarm is justified (see the note in the table): the "
-       "change was not harmless. Examples of behaviour that changed without an alarm: Beast frames handed on as soon as complete "
+       f"Result: {len(rows)} changes, {n_runs} check runs, {n_alarm} alarm(s). Every alarm is justified (see the notes in the table): the "
+       "change was not harmless for the property whose check fired. Examples of behaviour that changed without an alarm: Beast frames handed on as soon as complete "
        "(look-ahead 23 -> 2 bytes, nothing left pending), dedup ties broken by arrival rank instead of frame bytes, undecodable "
        "receptions dropped at arrival, table navigation saturating instead of wrapping, the 50 km trajectory gate scaled with elapsed "
        "time, late same-parity frames ignored, positions rounded to 6 decimals, far references answered with none, BDS 5,0 envelopes "
